@@ -110,3 +110,58 @@ Proof.
   rewrite ttsv_partial; [now rewrite H|now left|].
   destruct skip as [k|]; [|exact I]. unfold in_range in Hs. apply andb_true_iff in Hs as [_ Hs]. now apply Z.ltb_lt in Hs.
 Qed.
+
+(* ---- ttensor.reconstruct(samples, modes) (C19-N29, open) ---- *)
+Definition wrap_range (N m : Z) : bool := (- N <=? m) && (m <? N).
+Theorem reconstruct_exact s modes nsamp :
+  guard_reconstruct s modes nsamp = decide ((nsamp =? zlen modes) && forallb (wrap_range (ndim s)) modes).
+Proof.
+  unfold guard_reconstruct. fold (wrap_range (ndim s)). destruct (nsamp =? zlen modes); cbn [chk andthen andb decide]; [|reflexivity].
+  destruct (forallb _ modes); reflexivity.
+Qed.
+Definition reconstruct_stmt : Prop := forall s modes nsamp, guard_reconstruct s modes nsamp = decide (pre_reconstruct s modes nsamp).
+Theorem reconstruct_refuted : ~ reconstruct_stmt.
+Proof. intros H. specialize (H [2; 3; 4] [-1] 1). vm_compute in H. discriminate. Qed.
+
+Lemma wrap_nonneg N modes : forallb (fun m => 0 <=? m) modes = true -> forallb (wrap_range N) modes = forallb (in_range N) modes.
+Proof.
+  induction modes as [|m r IH]; intros H; [reflexivity|]. cbn [forallb] in *. apply andb_true_iff in H as [Hm Hr].
+  rewrite (IH Hr). f_equal. unfold wrap_range, in_range. rewrite Hm. apply Z.leb_le in Hm.
+  destruct (Z.ltb_spec m N); [|now rewrite andb_false_r]. rewrite andb_true_r. apply Z.leb_le. lia.
+Qed.
+
+(* exact on every request whose modes are non-negative and pairwise different *)
+Theorem reconstruct_partial s modes nsamp :
+  forallb (fun m => 0 <=? m) modes = true -> nodupb modes = true ->
+  guard_reconstruct s modes nsamp = decide (pre_reconstruct s modes nsamp).
+Proof.
+  intros H0 Hn. rewrite reconstruct_exact, (wrap_nonneg _ _ H0). unfold pre_reconstruct, modes_ok. rewrite Hn, andb_true_r.
+  f_equal. apply andb_comm.
+Qed.
+
+(* "answered although ill-formed" = the trigger region of C19-N29: the counts agree, every mode is in [-ndims, ndims), and a mode is
+   negative or listed twice *)
+Theorem reconstruct_gap s modes nsamp :
+  guard_reconstruct s modes nsamp = Ok tt /\ pre_reconstruct s modes nsamp = false <->
+  nsamp = zlen modes /\ forallb (wrap_range (ndim s)) modes = true /\ modes_ok (ndim s) modes = false.
+Proof.
+  rewrite reconstruct_exact. unfold pre_reconstruct, decide.
+  destruct (Z.eqb_spec nsamp (zlen modes)) as [E|E]; cbn [andb].
+  - destruct (forallb (wrap_range (ndim s)) modes), (modes_ok (ndim s) modes); cbn [andb]; split; intros H;
+      try (destruct H as [A B]); try discriminate; try (destruct B; discriminate); repeat split; auto.
+  - rewrite andb_false_r. split; intros [A B]; [discriminate|contradiction].
+Qed.
+
+(* ---- ktensor.score, sptensor.subdims, ktensor.from_vector ---- *)
+Theorem score_decides s u ra rb thr_ok : guard_score s u ra rb thr_ok = decide (pre_score s u ra rb thr_ok).
+Proof.
+  unfold guard_score, pre_score. destruct (shape_eqb s u), thr_ok; cbn [chk andthen andb decide]; try reflexivity;
+    destruct (Z.ltb_spec ra rb), (Z.leb_spec rb ra); try reflexivity; lia.
+Qed.
+Theorem subdims_decides s k : guard_subdims s k = decide (pre_subdims s k).
+Proof. unfold guard_subdims, pre_subdims. destruct (k =? ndim s); reflexivity. Qed.
+Theorem from_vector_decides n shape cw : guard_from_vector n shape cw = decide (pre_from_vector n shape cw).
+Proof.
+  unfold guard_from_vector, pre_from_vector. cbv zeta. destruct (_ =? 0); cbn [negb andb andthen decide]; [reflexivity|].
+  destruct (_ =? 0); reflexivity.
+Qed.
